@@ -79,7 +79,7 @@ def diff_fp(a, b):
 
 # ------------------------------------------------------------------------------ scenarios (shared objects)
 LATTICE_KINDS = ["honeycomb2", "honeycomb3", "voronoi", "voronoi_noshift", "voronoi_cut", "honeycomb_cut", "tri_square_pent",
-                 "square33", "ladder", "hexsqoct", "tutte"]
+                 "square33", "ladder", "hexsqoct", "tutte", "bridge_graph", "bridged_squares"]
 
 
 def _base_uncached(kind, seed):
@@ -108,6 +108,16 @@ def _base_uncached(kind, seed):
         l = eg.hex_square_oct_lattice(1)
     elif kind == "tutte":
         l = eg.tutte_graph()
+    elif kind == "bridge_graph":
+        l = eg.bridge_graph()
+    elif kind == "bridged_squares":
+        # two squares joined by a two-edge path (plaquette-free edges whose ends are not dangling) plus a dangling edge:
+        # what an operation returns here must not depend on whether the plaquettes were computed before
+        jit = rng.uniform(-0.01, 0.01, size=(10, 2))
+        pos = np.array([[0.10, 0.30], [0.10, 0.60], [0.35, 0.60], [0.35, 0.30], [0.65, 0.60], [0.65, 0.30], [0.90, 0.30], [0.90, 0.60],
+                        [0.50, 0.75], [0.10, 0.85]]) + jit
+        ed = np.array([[0, 1], [1, 2], [2, 3], [3, 0], [4, 5], [5, 6], [6, 7], [7, 4], [2, 8], [8, 4], [1, 9]])
+        l = Lattice(pos, ed, np.zeros_like(ed))
     else:
         raise ValueError(kind)
     return gen.arrays(l)
